@@ -47,7 +47,7 @@ def _(self: Ref['mqtt.client.pubsubs.MQTTProtocol'], request: Ref['mqtt.pdu.PUBL
     # accepted: queued exactly once (FIFO), then released as the window allows
     ensures(implies(not publish_rejected(request),
                     result == request.deferred and result.msgId == request.msgId
-                    and dq_tail(Q(self)) == old(dq_tail(Q(self))) + 1
+                    and dq_tail(Q(self)) == old(dq_tail(Q(self))) + 1 and dq_at(Q(self), old(dq_tail(Q(self)))) == request
                     and len(out(self)) == len(old(out(self))) + (dq_head(Q(self)) - old(dq_head(Q(self))))))
     ensures(implies(not publish_rejected(request) and request.qos == 0,
                     result.d_fired and result.d_ok and is_none(result.d_val) and is_none(request.msgId)))
